@@ -433,7 +433,68 @@ def op_ro(self, a, targets):
     info["kind"] = kind
     if twin is not None:
         _twin_differential(self, sl, twin, pre, kind, a)
+    if a.get("freetwin") and not sl.free and sl.depth >= 2 and self.prop == "C10":
+        _free_twin(self, sl, a)
     return info
+
+
+def _attrs_view(f):
+    """what the rank attributes of every fiber of a free-standing tree say (read through the attribute getters only)"""
+    out = []
+
+    def rec(g, d):
+        ra = g.getRankAttrs()
+        row = [d]
+        for fn in (ra.getId, ra.getShape, ra.getFormat, ra.getDefault):
+            try:
+                v = fn()
+                row.append(repr(Payload.get(v)) if not isinstance(v, type) else v.__name__)
+            except Exception as e:
+                row.append("raised " + type(e).__name__)
+        row.append(g.getOwner() is None)
+        out.append(row)
+        for p in g.payloads:
+            if isinstance(p, Fiber):
+                rec(p, d + 1)
+    rec(f, 0)
+    return out
+
+
+def _free_twin(self, sl, a):
+    """C10 on free-standing multi-level fibers: two identical, unowned trees are built; a battery of read-only queries
+    runs on one of them only; afterwards both still say the same about themselves"""
+    try:
+        d = sl.root.fiber2dict()
+        f1 = Fiber.dict2fiber(copy.deepcopy(d))
+        f2 = Fiber.dict2fiber(copy.deepcopy(d))
+    except Exception:
+        return
+    if not isinstance(f1, Fiber) or not any(isinstance(p, Fiber) for p in f1.payloads):
+        return
+    before = (ob.enc_fiber(f1), _attrs_view(f2))
+    try:
+        with contextlib.redirect_stdout(io.StringIO()):
+            f1.isEmpty()
+            f1.countValues()
+            len(f1)
+            _consume(iter(f1))
+            f1.getDefault()
+            f1.getDepth()
+            f1.minCoord()
+            f1.maxCoord()
+            str(f1)
+            f1.nonEmpty()
+    except Exception:
+        return
+    self.probe("free_nested_fiber_queried")
+    if ob.enc_fiber(f1) != before[0]:
+        self.V("C10", "C10.readonly-pure", "ro_freetwin", "read-only queries changed a free-standing multi-level fiber")
+    v1, v2 = _attrs_view(f1), _attrs_view(f2)
+    if v1 != v2:
+        diff = next(((x, y) for x, y in zip(v1, v2) if x != y), (v1[:1], v2[:1]))
+        self.V("C10", "C10.read-only-leaves-no-hidden-state", "ro_freetwin",
+               f"after read-only queries a free-standing multi-level fiber describes itself differently from an identical "
+               f"fiber that was not queried: (depth, id, shape, format, default, unowned) {diff[0]} vs {diff[1]}")
 
 
 def _behaviour(t, perms=()):
@@ -655,6 +716,8 @@ def gen_ro(self, g):
         a["reuse"] = g.random() < 0.7
     if g.random() < 0.3:
         a["twin"] = True
+    if self.prop == "C10" and sl.depth >= 2 and g.random() < 0.1:
+        a["freetwin"] = True
     return ["op", "ro", a]
 
 
